@@ -1,5 +1,7 @@
 package go9p
 
+import "io"
+
 // C11 — a disconnect releases everything the connection held.
 
 // nfids: fids on the victim (0: attach only fid 0; 1: + walked fid 1; 2: + fid 1 opened)
@@ -108,5 +110,55 @@ func vxH11(nfids int, w int, kind0 int, kind1 int, maxpend int, midframe bool) {
 	if len(nb.writes) == wireBefore+1 {
 		vxAssert(nb.writes[wireBefore][4] == Rstat, "bystander-answer")
 	}
+	vxReach("done")
+}
+
+// H11.writefail: the disconnect shows up as a failing Write while a reply is being sent and another request
+// (a Tversion, which the receiver executes itself) is waiting to queue its reply.
+func vxH11WriteFail(maxpend int, second int) {
+	kit := vxNewKit(false, false, 8192, true)
+	kit.srv.Maxpend = maxpend
+	nc := vxNewNetConn()
+	kit.srv.NewConn(nc)
+	vxQuiesce()
+	nc.in <- refEncode(Tversion, NOTAG, []refItem{refU32(8192), refS("9P2000.u")}, true)
+	vxQuiesce()
+	nc.in <- refEncode(Tattach, 1, []refItem{refU32(0), refU32(NOFID), refS("u0"), refS(""), refU32(0)}, true)
+	vxQuiesce()
+	var victim *Conn
+	for c := range kit.srv.conns {
+		victim = c
+	}
+	vxAssert(victim != nil, "harness-victim-found")
+	if victim == nil {
+		return
+	}
+	f0 := victim.fidpool[0]
+	// the peer stops reading: the reply to the next request stays in Write
+	nc.stallWrite = len(nc.writes)
+	nc.in <- refEncode(Tstat, 5, []refItem{refU32(0)}, true)
+	vxQuiesce()
+	// meanwhile another request arrives and is answered
+	switch second {
+	case 0:
+		nc.in <- refEncode(Tversion, NOTAG, []refItem{refU32(8192), refS("9P2000.u")}, true)
+	case 1:
+		nc.in <- refEncode(Tstat, 6, []refItem{refU32(0)}, true)
+	}
+	vxQuiesce()
+	// now the transport gives up
+	nc.release <- io.ErrClosedPipe
+	vxQuiesce()
+	nc.hangup()
+	vxQuiesce()
+	vxAssert(kit.ops.closed == 1, "connection-reported-closed-exactly-once")
+	if f0 != nil {
+		vxAssert(kit.ops.ndestroyed(f0) == 1, "fid-valid-at-disconnect-reported-destroyed-once")
+	}
+	if vxSymbolic() {
+		vxAssert(vxParkedInLib() == 0, "every-goroutine-of-the-dropped-connection-ended")
+	}
+	_, still := kit.srv.conns[victim]
+	vxAssert(!still, "dropped-connection-unregistered")
 	vxReach("done")
 }
